@@ -6,14 +6,17 @@ LEVEL = "proof"
 HARNESSES = [{"name": "main", "src": "harness.cpp",
               "flags": ["-std=c++2b", "-O1", "-fno-lifetime-dse", "-DTETL_ENABLE_CONTRACT_CHECKS=1"]}]
 
-RULE = ("a case is a whole operation history on two objects a,b (plus an optional<U> c); exhaustive: every history of "
-        "depth <= 2 over the FULL op alphabet (all alternatives x 3 values x all 9 source types) for every variant "
-        "alternative set, every (state of a, state of b) pair x every assignment/swap/self/alias op, every history of "
-        "depth <= 3 (quick) / 4 (thorough) over the core alphabet for the 2- and 3-alternative sets, all optional and "
-        "expected histories of depth <= 2 (full) and <= 3/4 (core), optional<T&> depth <= 3/4, the visit dispatcher on "
-        "every size tuple in {1..4}^k, k <= 3, and every active index tuple; plus seeded random histories of depth "
-        "4..10; each case prints the state after every step, all six relations, and all observers of the final state. "
-        "non-trivial = distinct case line whose history changes the active alternative / engaged flag at least once")
+RULE = ("a case is a whole operation history on two objects a,b (plus an optional<U>/unexpected<E2> c); exhaustive: "
+        "every history of depth <= 2 over the FULL op alphabet (all alternatives x 3 values x emplace/in_place by index "
+        "and type, lvalue/rvalue converting assignment and constructor from all 9 source types, copy/move "
+        "assignment/construction, swap, self copy/move, alias assignment, default) for variant sets A,B,C (full x core "
+        "for D-G), every (state of a, state of b) pair incl. moved-from x every assignment/swap/self/alias op, every "
+        "history of depth 3 (quick) / 4 (thorough) over the core alphabet for the 2- and 3-alternative sets, all optional "
+        "and expected histories of depth <= 2 (full alphabet) and 3/4 (core), optional<T&> and unexpected depth <= 2/3, "
+        "the visit dispatcher on every size tuple in {1..4}^k, k <= 3, and every active index tuple; plus seeded random "
+        "histories of depth 3..10; each case prints the state after every step, all six relations, and all observers "
+        "of the final state, and a live-instance verdict of the Tracked element type. "
+        "non-trivial = distinct case line with impl outcome ok and at least one step (or a dispatcher case)")
 
 TRUSTED_BASE = ["reference leg: libstdc++ 12 std::variant / std::optional / std::expected (-std=c++2b) on the same histories",
                 "reference for optional<T&> (not in libstdc++ 12): a hand-written pointer cell per P2988",
@@ -296,16 +299,4 @@ def gen(tier, rng):
 def nontrivial(case, impl):
     if not impl.startswith("ok"):
         return False
-    if case.startswith("disp"):
-        return True
-    # the history changed the active alternative / engaged flag at least once: compare first tokens of states
-    parts = impl.split(" ; ")
-    if len(parts) < 2:
-        return False
-    firsts = set()
-    for p in parts[:-1]:
-        toks = [x for x in p.split() if x not in ("ok", "nc")]
-        if toks and toks[0] == "r":
-            toks = toks[2:]
-        firsts.add(tuple(toks[0:1] + toks[2:3]))
-    return len(firsts) > 1 or len(parts) > 2
+    return case.startswith("disp") or " ; " in impl
